@@ -1,4 +1,4 @@
-//go:build verif_xcrypto
+//go:build verif
 
 package c20
 
